@@ -204,11 +204,14 @@ func (h *harness) checkOneKey(class, fixedKey string, c *niCase, comp compiler.N
 	}
 	h.res.Count(class+"/"+short(comp)+"/"+decClass, ct, d != nil)
 	if got == "P" {
+		// a verifier must reject, not crash, whatever it is handed
 		h.res.Distribution["verifier-panicked"]++
-		got = "0"
-		if len(h.res.Notes) < 20 {
-			h.res.Note("verifier panicked (counted as reject): %s", trunc(ct, 300))
+		pkg := c.id
+		if i := strings.Index(pkg, "/"); i > 0 {
+			pkg = pkg[:i]
 		}
+		h.prop(pkg+"-verify-panic", ct, "compiled verifier panicked ("+class+", "+decClass+")", "verifiers never accept or crash on malformed proofs")
+		return
 	}
 	propfail := got != expect
 	if c.light && !propfail && got == "0" && class != "same-context" {
